@@ -175,6 +175,65 @@ pub fn dup_conflict(n: usize) -> Data {
     Data { id: format!("dup_conflict_n{}", n), kind: Kind::Regression, x, labels: vec![], targets, probes: probes1() }
 }
 
+/// `d`-dimensional points in generic position on a sub-unit scale (coordinates in [0, ~1.05]):
+/// a lattice with pitch 0.125 plus jitter of +-0.025
+fn hd_points(n: usize, d: usize) -> Vec<Vec<f64>> {
+    let scale = 0.125;
+    (0..n).map(|k| (0..d).map(|j| scale * (((k * (2 * j + 3) + j * j) % 9) as f64) + scale * 4.0 * jitter(k, j)).collect()).collect()
+}
+
+fn hd_probes(d: usize) -> Vec<Vec<f64>> {
+    vec![vec![0.3; d], (0..d).map(|j| 0.125 * j as f64).collect(), (0..d).map(|j| if j % 2 == 0 { 1.2 } else { -0.4 }).collect(), vec![-2.0; d]]
+}
+
+/// classification in `d` features: label = alternating-sign coordinate sum above its median, every 7th label flipped
+pub fn highdim_cls(n: usize, d: usize) -> Data {
+    let x = hd_points(n, d);
+    let score: Vec<f64> = x.iter().map(|r| r.iter().enumerate().map(|(j, v)| if j % 2 == 0 { *v } else { -*v }).sum()).collect();
+    let mut sorted = score.clone();
+    sorted.sort_by(|a, b| a.partial_cmp(b).unwrap());
+    let med = (sorted[n / 2 - 1] + sorted[n / 2]) / 2.0;
+    let labels = (0..n).map(|k| (score[k] > med) ^ (k % 7 == 3)).collect();
+    Data { id: format!("highdim_cls_d{}_n{}", d, n), kind: Kind::Classification, x, labels, targets: vec![], probes: hd_probes(d) }
+}
+
+pub fn highdim_unl(n: usize, d: usize) -> Data {
+    Data { id: format!("highdim_unl_d{}_n{}", d, n), kind: Kind::Unlabelled, x: hd_points(n, d), labels: vec![], targets: vec![], probes: hd_probes(d) }
+}
+
+pub fn highdim_reg(n: usize, d: usize) -> Data {
+    let x = hd_points(n, d);
+    let targets = x.iter().enumerate().map(|(k, r)| r.iter().enumerate().map(|(j, v)| ((j % 3) as f64 - 1.0) * 0.6 * v).sum::<f64>() + 3.0 * jitter(k + 17, 2)).collect();
+    Data { id: format!("highdim_reg_d{}_n{}", d, n), kind: Kind::Regression, x, labels: vec![], targets, probes: hd_probes(d) }
+}
+
+/// one-feature classification: threshold on a sub-unit grid with every 5th label flipped
+pub fn cls_1d(n: usize) -> Data {
+    let g: Vec<f64> = grid1(n).iter().map(|v| v * 0.25).collect();
+    let labels = g.iter().enumerate().map(|(k, &v)| (v > 0.3) ^ (k % 5 == 0)).collect();
+    Data { id: format!("cls_1d_n{}", n), kind: Kind::Classification, x: g.iter().map(|&v| vec![v]).collect(), labels, targets: vec![], probes: vec![vec![0.05], vec![0.31], vec![-1.0], vec![2.0]] }
+}
+
+/// jittered lattice with exactly `npos` positives spread evenly over the sample order; positives displaced so that
+/// the classes overlap partly (the mirror image of `imbalanced` when npos > n/2)
+pub fn skewed(n: usize, npos: usize) -> Data {
+    let s = ceil_sqrt(n);
+    let mut x = Vec::new();
+    let mut labels = Vec::new();
+    for k in 0..n {
+        let (i, j) = lat(k, s);
+        let pos = (k * npos) / n != ((k + 1) * npos) / n;
+        let mut p = vec![i as f64 * 0.5 + jitter(k, 0), j as f64 * 0.5 + jitter(k, 1)];
+        if pos {
+            p[0] += 0.9;
+            p[1] += 0.35;
+        }
+        x.push(p);
+        labels.push(pos);
+    }
+    Data { id: format!("skewed_pos{}_n{}", npos, n), kind: Kind::Classification, x, labels, targets: vec![], probes: probes2() }
+}
+
 pub fn catalogue(sizes: &[usize]) -> Vec<Data> {
     let mut out = Vec::new();
     for &n in sizes {
